@@ -10,6 +10,8 @@
      k = "root" : the root of a stream of n leaves by the definition, R(0,n),
                   and by the accumulator fold over the perfect subtrees of the
                   binary decomposition of n.
+     k = "stream": the expected verdict of the streaming verifier for an altered
+                  claimed range / truncated / over-long stream (see StreamLine).
    Lines are independent: chunked walk of TraceLib.                          *)
 EXTENDS RHPMerkle, TraceLib, Json
 Params == ndJsonDeserialize("sector_params.ndjson")
@@ -26,9 +28,24 @@ Range(t, l) ==
 RootLine(t, l) ==
   LET acc == Fill([Empty EXCEPT !.n = t.n], 0, MaxHeight + 1, AppendDef(<<>>, t.n, 0))
   IN PrintT("@@SR " \o ToJson([idx |-> l, n |-> t.n, def |-> Sub(<<>>, 0, t.n), fold |-> AccRoot(acc)]))
+\* k = "stream": the streaming verifier (NewRangeProofVerifier(s2,e2) + ReadFrom + Verify) is given
+\* `len` bytes of the sector from leaf s on (the honest data of [s,e) when len = 64*(e-s), a truncated
+\* or over-long stream otherwise) and the honest proof of [s,e) (pf = 0) or of the claimed range
+\* [s2,e2) (pf = 1).  Expected verdict: RHPMerkle!StreamHonest in its position form (a trailing partial
+\* leaf is not a leaf: ReadFrom fails if it gets that far).
+StreamLine(t, l) ==
+  LET ps == IF t.pf = 0 THEN t.s ELSE t.s2
+      pe == IF t.pf = 0 THEN t.e ELSE t.e2
+      proof == ProofDef(<<>>, 0, LPS, ps, pe)
+  IN /\ Check(0 <= t.s /\ t.s < t.e /\ t.e <= LPS /\ 0 <= t.s2 /\ t.s2 < t.e2 /\ t.e2 <= LPS /\ t.len >= 0, l, "SPECFAIL bad stream line")
+     /\ Check(proof = BuildRangeProofAlg(<<>>, LPS, ps, pe), l, "SPECFAIL definition and nextSubtreeSize walk differ")
+     /\ PrintT("@@SS " \o ToJson([idx |-> l, s |-> t.s, e |-> t.e, s2 |-> t.s2, e2 |-> t.e2, len |-> t.len, pf |-> t.pf,
+                                   proof |-> proof,
+                                   accept |-> StreamCutHonest(ps, pe, t.s, t.len \div 64, t.s2, t.e2)]))
 Line(l) == LET t == Params[l] IN
   CASE t.k = "range" -> Range(t, l)
     [] t.k = "root"  -> RootLine(t, l)
+    [] t.k = "stream" -> StreamLine(t, l)
     [] OTHER -> Reject(l, "SPECFAIL unknown line")
 
 VARIABLES chunk, pos
